@@ -397,6 +397,9 @@ func (s *Store) scopeOf(from []*pg_query.Node) *scope {
 			add(j.Larg)
 			add(j.Rarg)
 		}
+		if rs := n.GetRangeSubselect(); rs != nil {
+			s.addDerived(sc, rs) // c09.go: (SELECT ...) AS alias in FROM
+		}
 	}
 	for _, n := range from {
 		add(n)
@@ -732,6 +735,9 @@ func (x *execCtx) evalCond(sc *scope, row map[*table][]Value, w *pg_query.Node) 
 	r, _, err := x.evalOperand(sc, row, e.Rexpr, hintR)
 	if err != nil {
 		return false, err
+	}
+	if res, ok := distinctFrom(e, l, r); ok {
+		return res, nil // c09.go: IS [NOT] DISTINCT FROM
 	}
 	if l.Null || r.Null {
 		return false, nil
